@@ -1,7 +1,7 @@
 SPECIFICATION MCSpec
 CONSTANTS
   Nodes = {"a"}
-  SnapCarriesLP = FALSE
+  SnapCarriesLP = TRUE
   Kinds = {"E"}
   MaxOps = 3
   MaxSys = 0
@@ -9,14 +9,14 @@ CONSTANTS
   MaxRecFail = 0
   MaxBlock = 1
   MaxTake = 0
-  MaxCrash = 1
+  MaxCrash = 0
   MaxStep = 0
   MaxZombie = 0
   MaxSnap = 1
   MaxForeign = 0
-  Keeps = {10240}
+  Keeps = {1}
   Eager = TRUE
-INVARIANTS TypeOK C18_ControllerDispatches C18_IdleMeansPublished C18_IdContent C18_NoSkip C18_FirstOrder C18_LPSound I_DispAboveLP C18_Obtainable NoPanic
+INVARIANTS C18_Obtainable
 PROPERTIES StepsOK
 VIEW MCView
 CHECK_DEADLOCK FALSE
